@@ -617,6 +617,42 @@ def check_own_state(ctx):
            '; '.join(problems[:3]))
 
 
+def check_volume_option_codes(ctx):
+    """The lineage splitter stores how the volume is split as a code; partition() decodes 0 = binomial, 1 = duplicate, 2 = perfect
+    (each code's volume formulas are decided by R19.1-volume).  The constructor, partially evaluated on sample options, must store the
+    code of the mode that was asked for."""
+    from ..templates import StrExec, Hole, UNKNOWN
+    f = ctx.fn('lineage:LineageVolumeSplitter.__init__')
+    want = {'binomial': 0, 'duplicate': 1, 'perfect': 2}
+    pn = [a.arg for a in f.args.args[1:]]
+    problems = []
+    decided = 0
+    for key in ('volume', 'default'):
+        for mode, code in want.items():
+            env = {pn[1]: {key: mode}, pn[2]: {}, pn[0]: Hole('MODEL')}
+            if len(pn) > 3:
+                env[pn[3]] = 0.5
+            ex = StrExec(env, tracked={'self.how_to_split_v'}, frozen=set(env))
+            try:
+                ex.run(f.body)
+            except AnalysisError as e:
+                raise AnalysisError('LineageVolumeSplitter.__init__ with options {%r: %r}: %s' % (key, mode, e))
+            got = ex.env.get('self.how_to_split_v', UNKNOWN)
+            if ex.aborted:
+                if key == 'volume':
+                    problems.append('options {%r: %r} are rejected (%s)' % (key, mode, ex.aborted))
+                continue        # (a default without an explicit volume entry may be refused; it must not be given another mode)
+            if got is UNKNOWN:
+                raise AnalysisError('LineageVolumeSplitter.__init__: the volume code for options {%r: %r} could not be evaluated' % (key, mode))
+            decided += 1
+            if got != code:
+                label = {v: k_ for k_, v in want.items()}.get(got, 'code %r' % (got,))
+                problems.append("options {%r: %r} store the volume code %r, which partition() reads as '%s'" % (key, mode, got, label))
+    ctx.ob('R19.1-volume', 'LineageVolumeSplitter/option-codes', not problems and decided >= 3, ctx.loc('lineage', f),
+           "the constructor stores, for the volume mode asked for (by 'volume' or by 'default'), the code partition() decodes as that mode",
+           '; '.join(problems))
+
+
 def check_rows_written(ctx):
     """"every reported row ... was actually simulated": rows 0..current_index-1 of the result arrays are the ones the loop has written.
     After the loop the arrays are cut to what is reported; a cut that keeps row `current_index` is only right on a path that has just
@@ -730,6 +766,7 @@ def check(ctx):
         prog.mod(m)
     check_grid_cut(ctx)
     check_rows_written(ctx)
+    check_volume_option_codes(ctx)
     fl = None
     for mod, cls in SPLITTERS:
         f, copies, p_var = check_partition(ctx, mod, cls)
